@@ -7,6 +7,7 @@
 cd "$(dirname "$0")" || exit 3
 export GOFLAGS=-mod=mod GOPROXY=off GOSUMDB=off GOTOOLCHAIN=local
 [ -x bin/bornovc ] || ./setup.sh >&2 || exit 3
+ROOT=$(pwd)
 what=${1:-all}; filter=${2:-}
 T=$(mktemp -d /tmp/selftest.XXXXXX); trap 'rm -rf "$T"' EXIT
 bad=0
@@ -14,7 +15,7 @@ run_one() { # name patch expect(0|1) checks...
   local name=$1 patch=$2 expect=$3; shift 3
   rm -rf "$T/src" "$T/out"; mkdir -p "$T/src" "$T/out"
   rsync -a --exclude .git /repo/ "$T/src/"
-  (cd "$T/src" && patch -s -p1 < "$patch") || { echo "SELFTEST-ERROR $name: patch does not apply"; bad=1; return; }
+  (cd "$T/src" && patch -s -p1 < "$ROOT/$patch") || { echo "SELFTEST-ERROR $name: patch does not apply"; bad=1; return; }
   for c in "$@"; do
     VERIF_REPO="$T/src" VERIF_OUT="$T/out" ./bin/bornovc check "$c" quick > "$T/log" 2>&1; rc=$?
     if [ "$expect" = 1 ]; then
